@@ -394,10 +394,10 @@ def run(ck, replay=None):
     stats = {'unjudged': 0, 'assignments_judged_ok': 0}
     plans = [('single', [1, 2, 3, 4], ALL_SCALARS, ALL_CLASSES, 1)]
     if quick:
-        plans.append(('pairs', [1, 2, 3, 4], ['i7', 'w1'], ['leaf', 'newkey', 'container', 'inconv', 'unspec', 'deepnew'], 2))
+        plans.append(('pairs', [1, 2, 3, 4, 5], ['i7', 'w1'], ['leaf', 'newkey', 'container', 'inconv', 'unspec', 'deepnew'], 2))
     else:
-        plans.append(('pairs', [1, 2, 3, 4], ALL_SCALARS, ALL_CLASSES, 2))
-        plans.append(('triples', [1, 2, 3, 4], ['w1'], ['leaf', 'newkey', 'inconv', 'deepnew'], 3))
+        plans.append(('pairs', [1, 2, 3, 4, 5], ALL_SCALARS, ALL_CLASSES, 2))
+        plans.append(('triples', [1, 2, 3, 4, 5], ['w1'], ['leaf', 'newkey', 'inconv', 'deepnew'], 3))
     ck.cov['exhaustive'] = True
     n = 0
     for tag, shapes, scalars, classes, maxops in plans:
